@@ -111,7 +111,15 @@ let () =
   done;
   let q = !q and dd2 = !dd2 in
   let vzero = Lit (0, 0) and vdef = Lit (50, 0) in
-  let st = ref (minit vzero vdef) in
+  (* state of TwoObjModel.kstep: identifiers -> objects; after every step the glue re-tabulates the
+     NOBJ slots the harness has, so that look-ups stay constant time *)
+  let nobj = 4 in
+  let tabulate (f : nat -> _ vd) =
+    let a = Array.init nobj (fun i -> f (nat_of_int i)) in
+    let fresh = vd_alloc vzero vdef in
+    (fun k -> let i = int_of_nat k in if i < nobj then a.(i) else fresh) in
+  let st = ref (tabulate (ninit vzero vdef)) in
+  let obj i = !st (nat_of_int i) in
   let toks = ref [] in
   let next () = match !toks with [] -> failwith "short line" | x :: r -> toks := r; x in
   let zi () = z_of_int (int_of_string (next ())) in
@@ -131,7 +139,7 @@ let () =
            let (res, x) = alloc_and_init vzero vdef (z t) (z r) (z c) (z f) in
            (* NULL: the harness puts a fresh vnadata_alloc object into the slot *)
            let d = (match res with Some d -> d | None -> vd_alloc vzero vdef) in
-           st := put !st (i = 1) d;
+           st := tabulate (nput !st (nat_of_int i) d);
            let rs = (match x.o_ret with ROk -> "ok" | RFail -> "fail" | RFault -> "fault") in
            let es = (match x.o_ret with RFail -> "EINVAL" | _ -> "0") in
            Printf.printf "R %s %s %d -\n" rs es (int_of_nat x.o_cb);
@@ -140,23 +148,23 @@ let () =
            let i = int_of_string o in
            Printf.printf "R ok 0 0 s %s\n"
              (match type_name (z_of_int (int_of_string k)) with Some s -> ocaml_string s | None -> "NULL");
-           Printf.printf "%s\n" (digest i (sel !st (i = 1))); true
+           Printf.printf "%s\n" (digest i (obj i)); true
          | [o; "setfmtbad"; _] ->
            (* a string with a field that does not parse: AccessorsModel.set_format_c refuses it and
               leaves the format alone, whatever the current format is *)
            let i = int_of_string o in
            let (_, accepted) = set_format_c false f_new (Some [None]) in
            Printf.printf "R %s\n" (if accepted then "ok 0 0 -" else "fail EINVAL 1 -");
-           Printf.printf "%s\n" (digest i (sel !st (i = 1))); true
+           Printf.printf "%s\n" (digest i (obj i)); true
          | _ -> false) in
       if not special && !toks <> [] && (List.hd !toks).[0] <> '#' then begin
         let first = next () in
-        let (mop, target) =
-          if first = "reset" then (MReset, 0)
+        let (mops, target) =
+          if first = "reset" then (List.init nobj (fun i -> NFree (nat_of_int i)), 0)
           else if first = "conv" then begin
             let a = int_of_string (next ()) in let b = int_of_string (next ()) in
             let nt = zi () in
-            (MConv (a = 1, b = 1, nt), b)
+            ([NConv (nat_of_int a, nat_of_int b, nt)], b)
           end else begin
             let i = int_of_string first in
             let name = next () in
@@ -194,14 +202,15 @@ let () =
               | "setfprec" -> OSetFprec (zi ())
               | "setdprec" -> OSetDprec (zi ())
               | _ -> failwith ("unknown op " ^ name)) in
-            (MOn (i = 1, o), i)
+            ([NOn (nat_of_int i, o)], i)
           end in
-        let (s', r) = mstep vzero vdef q dd2 conv !st mop in
-        st := s';
+        let r = List.fold_left (fun _ m ->
+            let (s', r) = kstep vzero vdef conv q dd2 !st m in
+            st := tabulate s'; r) { o_ret = ROk; o_cb = O; o_pay = PNone } mops in
         let rs = (match r.o_ret with ROk -> "ok" | RFail -> "fail" | RFault -> "fault") in
         let es = (match r.o_ret with RFail -> "EINVAL" | _ -> "0") in
         Printf.printf "R %s %s %d %s\n" rs es (int_of_nat r.o_cb) (payload r.o_pay);
-        Printf.printf "%s\n" (digest target (sel s' (target = 1)))
+        Printf.printf "%s\n" (digest target (obj target))
       end
     done
   with End_of_file -> ()
